@@ -1102,6 +1102,9 @@ func (ds *AnySource) writeNPZData(file *os.File) error {
 // in the form of a `storeableDataBlock` struct, then when it's done, writes that info
 // to the numpy-style npz file `file`. Finally, it closes that file and renames it to `finalName`.
 func (ds *AnySource) ArchiveDataBlock(N int, file *os.File, finalName string) error {
+	if N < 0 {
+		return fmt.Errorf("cannot archive a raw data block of %d samples", N)
+	}
 	if ds.archiveBlock.active {
 		return fmt.Errorf("cannot start archive block, because one is already being acquired")
 	}
